@@ -69,6 +69,12 @@ pub fn run_verify(flags: &[&str], files: &[(&str, &str)]) -> Result<(i32, String
     Ok((rc, stderr, problems))
 }
 
+/// like run_verify, returning the raw text of every problem file
+pub fn run_verify_raw(flags: &[&str], files: &[(&str, &str)]) -> Result<Vec<(String, String)>, String> {
+    let (_, _, problems) = run_verify(flags, files)?;
+    Ok(problems.into_iter().map(|p| (p.file, p.text)).collect())
+}
+
 pub fn read_problem(file: &str, text: &str) -> ReadProblem {
     match tff::parse(text) {
         Err(e) => ReadProblem { file: file.into(), formulas: vec![], wf_errors: vec![format!("not valid TFF: {e}")], readable: false, preds: vec![], text: text.to_string() },
